@@ -764,6 +764,10 @@ const (
 	acceptIgnore
 	acceptNotImplemented
 	acceptFormatError
+	// acceptServerFailure is not a header verdict: it is the in-place
+	// reply to a query that was admitted, queued, and whose budget ran out
+	// before a worker took it.
+	acceptServerFailure
 )
 
 func acceptHeader(h wire.Header) acceptVerdict {
@@ -782,6 +786,9 @@ func acceptHeader(h wire.Header) acceptVerdict {
 // rejectInPlace writes the library-shaped rejection — a bare header with
 // the request ID and opcode echoed, QR set, sections zeroed — without
 // touching the allocator.
+// rejectExpired answers a query whose budget lapsed while it waited.
+func (j *udpJob) rejectExpired() { j.rejectInPlace(acceptServerFailure) }
+
 func (j *udpJob) rejectInPlace(verdict acceptVerdict) {
 	if a, ok := j.engine.handler.(sourceAdmitter); ok && !a.AdmitsSource(j.RemoteAddr()) {
 		// Outside the access list: silent, like every other query from
@@ -792,8 +799,11 @@ func (j *udpJob) rejectInPlace(verdict acceptVerdict) {
 	copy(reply[0:2], j.rx[0:2]) // ID echo
 	opcode := (j.rx[2] >> 3) & 0xF
 	rcode := byte(dns.RcodeFormatError)
-	if verdict == acceptNotImplemented {
+	switch verdict {
+	case acceptNotImplemented:
 		rcode = byte(dns.RcodeNotImplemented)
+	case acceptServerFailure:
+		rcode = byte(dns.RcodeServerFailure)
 	}
 	reply[2] = 0x80 | (opcode << 3) | (j.rx[2] & 0x01) // QR, opcode, RD echoed
 	reply[3] = rcode
